@@ -40,10 +40,18 @@ pub static LLOG: Mutex<Vec<LRec>> = Mutex::new(Vec::new());
 /// (keyed by the id of the span whose close releases them; the outermost recording layer of stack 0 does it).
 pub static RELEASE_ON_CLOSE: Mutex<Vec<(u64, tracing::Span)>> = Mutex::new(Vec::new());
 
+/// Reentrancy: spans at whose close the outermost recording layer of stack 0 does some traced work of its own (a
+/// short-lived span, entered and left); afterwards that span must be gone again. (ids; second field: serial)
+pub static WORK_ON_CLOSE: Mutex<Vec<u64>> = Mutex::new(Vec::new());
+static WORK_SERIAL: AtomicU64 = AtomicU64::new(0);
+
 thread_local! {
     /// fault injection: the next `on_exit` of the outermost recording layer (layer 1) on this thread panics,
     /// after every layer has been told about the exit
     pub static PANIC_NEXT_ON_EXIT: std::cell::Cell<bool> = std::cell::Cell::new(false);
+    /// the same for `on_close` (the span must be removed and its parent released all the same)
+    /// (holds the id of the span whose `on_close` panics; 0 = none)
+    pub static PANIC_NEXT_ON_CLOSE: std::cell::Cell<u64> = std::cell::Cell::new(0);
 }
 static NEXT_SERIAL: AtomicU64 = AtomicU64::new(1);
 
@@ -265,6 +273,29 @@ where
         }
         self.push(r);
         if self.stack == 0 && self.layer == 1 {
+            let work = {
+                let mut w = WORK_ON_CLOSE.lock().unwrap();
+                match w.iter().position(|x| *x == id.into_u64()) {
+                    Some(p) => {
+                        w.remove(p);
+                        true
+                    }
+                    None => false,
+                }
+            };
+            if work {
+                crate::fw::fault("span_used_inside_on_close");
+                let n = WORK_SERIAL.fetch_add(1, Ordering::SeqCst);
+                let s = crate::sites::make_span(8, 600_000_000 + n);
+                let wid = s.id();
+                s.in_scope(|| {});
+                drop(s);
+                if let Some(wid) = wid {
+                    if ctx.span(&wid).is_some() {
+                        self.push(LRec { kind: "work_leak", id: wid.into_u64(), id2: id.into_u64(), ..Default::default() });
+                    }
+                }
+            }
             // taken out under the mutex, dropped outside it: each drop re-enters the collector (try_close)
             let mine: Vec<tracing::Span> = {
                 let mut held = RELEASE_ON_CLOSE.lock().unwrap();
@@ -283,6 +314,10 @@ where
                 crate::fw::fault("handle_dropped_inside_on_close");
             }
             drop(mine);
+        }
+        if self.layer == 1 && PANIC_NEXT_ON_CLOSE.with(|c| c.get() == id.into_u64() && c.replace(0) != 0) {
+            crate::fw::fault("panic_in_on_close");
+            panic!("injected panic inside Subscribe::on_close");
         }
     }
     fn on_id_change(&self, old: &Id, new: &Id, _ctx: Context<'_, C>) {
